@@ -130,8 +130,22 @@ def _callable(cls: str, meth: str):
     return getattr(U, cls), False
 
 
+RT_MODE = False  # thorough tier: numeric arguments are run-time variables instead of literals
+
+
+def _is_number(text: Optional[str]) -> bool:
+    try:
+        float(text)
+        return True
+    except (TypeError, ValueError):
+        return False
+
+
 def _value(cls, meth, param) -> Optional[str]:
-    return OVERRIDE.get((cls, meth, param), VALUES.get(param))
+    lit = OVERRIDE.get((cls, meth, param), VALUES.get(param))
+    if RT_MODE and _is_number(lit) and not (cls == "LCD" and meth == "__init__") and param not in ("min_angle", "max_angle", "min_pulse_us", "max_pulse_us"):
+        return f"rv_{param}"
+    return lit
 
 
 def _perms(items: Sequence[str]) -> List[Tuple[str, ...]]:
@@ -186,7 +200,11 @@ def shapes(cls: str, meth: str) -> Iterator[dict]:
                     if any(a is None or a.endswith("=None") for a in args_src):
                         continue
                     binding = {n: _value(cls, meth, n) for n in included}
-                    yield {"cls": cls, "meth": meth, "args": ", ".join(args_src), "binding": binding, "group": f"{cls}.{meth}/{vi}/{','.join(sorted(binding))}",
+                    defaults = {}
+                    for prm in plist:
+                        if prm.name not in included and prm.default is not inspect._empty and isinstance(prm.default, (int, float, bool, str)):  # None defaults are resolved inside the host class
+                            defaults[prm.name] = prm.default
+                    yield {"cls": cls, "meth": meth, "args": ", ".join(args_src), "binding": binding, "defaults": defaults, "group": f"{cls}.{meth}/{vi}/{','.join(sorted(binding))}",
                            "n_pos": k, "kw_order": list(perm)}
 
 
@@ -203,7 +221,9 @@ def script_for(shape: dict) -> Tuple[str, str]:
     else:
         lines.append(DECLS[cls])
         lines.append(f"{RECV[cls]}.{meth}({shape['args']})")
-    return IMPORTS + "\n".join(lines) + "\n", lines[-1]
+    rt_names = sorted({v for v in shape["binding"].values() if isinstance(v, str) and v.startswith("rv_")})
+    pre = [f'{n} = analog_read("A0")' for n in rt_names]
+    return IMPORTS + "\n".join(pre + lines) + "\n", lines[-1]
 
 
 def _norm(v: Any) -> Any:
@@ -265,9 +285,26 @@ def evaluate(shape: dict) -> dict:
         if target is None:
             ir_error = f"no {node_cls} node produced for `{line}` (the call vanished)"
         else:
+            for param, default in shape.get("defaults", {}).items():
+                field = renames.get(param, param)
+                if not hasattr(target, field) or ir_error:
+                    continue
+                got = _norm(getattr(target, field))
+                if got != _norm(default) and not (default is None and got in (None, "None")):
+                    ir_error = f"`{line}`: omitted parameter {param} should keep its default {default!r}, IR field {node_cls}.{field} holds {got!r}"
             for param, src_val in shape["binding"].items():
+                if ir_error:
+                    break
                 field = renames.get(param, param)
                 if not hasattr(target, field):
+                    continue
+                if src_val.startswith("rv_"):
+                    got_text = str(getattr(target, field))
+                    import re as _re
+                    names_in = set(_re.findall(r"rv_\w+", got_text))
+                    if names_in != {src_val}:
+                        ir_error = f"`{line}`: parameter {param} should bind the run-time value {src_val}, IR field {node_cls}.{field} holds {got_text!r}"
+                        break
                     continue
                 want = _norm(pyast.literal_eval(src_val)) if src_val not in ("hit", "OUTPUT", "INPUT", "HIGH", "LOW") else src_val
                 got = _norm(getattr(target, field))
@@ -276,7 +313,7 @@ def evaluate(shape: dict) -> dict:
                     break
     else:
         # Core helpers are expressions: check the Arduino call text
-        b = shape["binding"]
+        b = dict(shape["binding"])
         cname = {"pin_mode": "pinMode", "digital_write": "digitalWrite", "analog_write": "analogWrite", "digital_read": "digitalRead", "analog_read": "analogRead"}[shape["cls"]]
         second = b.get("mode") or b.get("value")
         want_call = f"{cname}({b['pin']}" + (f", {second})" if second else ")")
@@ -295,12 +332,21 @@ def main(tier: str, seed: int, only=None) -> int:
     report = Report(ID, LEVEL, tier, seed)
     all_shapes: List[dict] = []
     per_callable: Dict[str, int] = {}
-    for cls, meth, _, _ in CATALOGUE:
-        if only and cls not in only:
-            continue
-        n0 = len(all_shapes)
-        all_shapes.extend(shapes(cls, meth))
-        per_callable[f"{cls}.{meth}" if meth else cls] = len(all_shapes) - n0
+    global RT_MODE
+    for mode in ((False, True) if tier == "thorough" else (False,)):
+        RT_MODE = mode
+        for cls, meth, _, _ in CATALOGUE:
+            if only and cls not in only:
+                continue
+            n0 = len(all_shapes)
+            for shp in shapes(cls, meth):
+                if mode and not any(str(v).startswith("rv_") for v in shp["binding"].values()):
+                    continue
+                shp["group"] += ":rt" if mode else ""
+                all_shapes.append(shp)
+            key_name = (f"{cls}.{meth}" if meth else cls) + (" [run-time args]" if mode else "")
+            per_callable[key_name] = len(all_shapes) - n0
+    RT_MODE = False
     groups: Dict[str, Dict[str, List[dict]]] = {}
     results = pipeline.pool().imap_unordered(_work, all_shapes, chunksize=64) if pipeline.WORKERS > 1 else map(_work, all_shapes)
     for res in results:
